@@ -291,8 +291,20 @@ func (r *c15run) exec() (string, string) {
 					if len(out) == 1 {
 						continue
 					}
-					// buffered again after an idle period: track it like an unstarted topic
+					// buffered again after an idle period (it was observably not forwarded): from here on the topic is an unstarted one
+					// that this message opened, and the message is judged like any message that opens a topic - it is in the buffer
+					// unless its sender was beyond its limits
 					t.started = false
+					t.msgs = nil
+					mustLive, mayLive := r.live(st.Sender, st.Topic)
+					switch {
+					case mustLive >= m.L+2:
+						status = stMustNot
+					case mayLive+1 <= m.L:
+						status = stMust
+					default:
+						status = stEither
+					}
 				} else if len(out) != 0 {
 					return "forwarded-before-start", fmt.Sprintf("step %d %v: %d messages were handed over although the local party has not sent on the topic", si, st, len(out))
 				}
@@ -507,6 +519,27 @@ func c15templates(L, ratio int) []c15hist {
 			h.Steps = append(h.Steps, c15step{Op: "send", Topic: fmt.Sprintf("idle-fresh-%d", i)})
 		}
 		h.Steps = append(h.Steps, c15step{Op: "send", Topic: "idle-stale-0"})
+		out = append(out, h)
+	}
+	// (f') topics that were started, idled far beyond the expiry (the collector had its chances) and are then used AGAIN: a message
+	// arrives (forwarded at once or buffered anew, either is fine), the local party sends again - by then the message has been handed
+	// over - and afterwards the sender is served on fresh topics (a topic that started releases its bookkeeping, also the second time)
+	{
+		h := c15hist{Name: "restart-after-expiry", L: L, Ratio: ratio}
+		for i := 0; i < L+2; i++ {
+			h.Steps = append(h.Steps, c15step{Op: "send", Topic: fmt.Sprintf("again-%d", i)})
+		}
+		h.Steps = append(h.Steps, expire...)
+		for i := 0; i < L+2; i++ {
+			t := fmt.Sprintf("again-%d", i)
+			h.Steps = append(h.Steps, c15step{Op: "recv", Sender: 7, Topic: t, N: 1}, c15step{Op: "send", Topic: t}, c15step{Op: "recv", Sender: 7, Topic: t, N: 1})
+		}
+		for i := 0; i < L; i++ {
+			h.Steps = append(h.Steps, c15step{Op: "recv", Sender: 7, Topic: fmt.Sprintf("again-fresh-%d", i), N: 1})
+		}
+		for i := 0; i < L; i++ {
+			h.Steps = append(h.Steps, c15step{Op: "send", Topic: fmt.Sprintf("again-fresh-%d", i)})
+		}
 		out = append(out, h)
 	}
 	// (g) a sender follows into topics that OTHER senders opened: the topic limit is per sender, whoever opened the topic
